@@ -59,10 +59,17 @@ def run(tier):
         for name, r in results:
             R.count("results_" + name)
             mreq.append(["mstruct", MI.enc_marker(r)] + eenc); midx.append((name, s, r))
+            # level 2: the model's own parse / cnf / dnf must give the same marker
+            if name == "parse": mreq.append(["mparse", MI.tree_to_expr(s)] + eenc); midx.append(("model-parse", s, r))
+            if name in ("cnf", "dnf"): mreq.append(["malg", name, MI.enc_marker(m), MI.enc_marker(m)] + eenc); midx.append(("model-" + name, s, r))
     for (name, s, r), res in zip(midx, M.many(mreq)):
         exp = ["ok", str(r)] + [K.b(x) for x in K.truth(r, ienv)]
         if res != exp:
-            R.disagree(f"text/evaluation of the {name} result", dict(marker=s, result=str(r)), res[:6], exp[:6])
+            if name.startswith("model-") and res[:1] == ["ok"] and res[2:] == exp[2:]:
+                R.count("structural_drift_" + name)
+                if len(R.notes) < 5: R.notes.append(f"{name}({s}): model text {res[1]!r} implementation {exp[1]!r}")
+            else:
+                R.disagree(f"text/evaluation of the {name} result", dict(marker=s, result=str(r)), res[:6], exp[:6])
     M.close(); F.close()
     return R.finish(K.TRUSTED, ASSUME, RULE, "make -C coq Properties/C13.vo && coqc Properties/C13.v (Print Assumptions)")
 
